@@ -39,10 +39,13 @@ def default_tokenizers():
     for d in (ssj.edit_distance_join.__defaults__ or ()):
         if hasattr(d, 'get_return_set'):
             toks.append(d)
-    from py_stringsimjoin.join.edit_distance_join_py import edit_distance_join_py
-    for d in (edit_distance_join_py.__defaults__ or ()):
-        if hasattr(d, 'get_return_set') and d not in toks:
-            toks.append(d)
+    try:
+        from py_stringsimjoin.join.edit_distance_join_py import edit_distance_join_py
+        for d in (edit_distance_join_py.__defaults__ or ()):
+            if hasattr(d, 'get_return_set') and d not in toks:
+                toks.append(d)
+    except Exception:       # noqa: BLE001 - internal module layout is not this check's business
+        pass
     return toks
 
 
